@@ -1,9 +1,48 @@
+_T = 'AITB.Codec.'
 SPEC = {
     'id': 'C17',
     'lean_modules': ['AITB.Props.C17'],
-    'theorems': [],
+    'theorems': [_T + t for t in [
+        # numbers and combinators
+        'scanN_printN', 'rep_roundtrip', 'rep_ok',
+        # sparse storage
+        'fromTriplets_sorted', 'sorted_length_le', 'fromTriplets_valid', 'rt_spgen', 'rdSpGen_ok',
+        # round trip, every kind
+        'roundtrip_dexp', 'roundtrip_sexp', 'roundtrip_dmodel', 'roundtrip_smodel', 'roundtrip_pd', 'roundtrip_ps',
+        'roundtrip_mpol', 'polLoop_entries', 'polLoop_horizons', 'roundtrip_ppol', 'load_roundtrip',
+        # every token list: success => valid
+        'rdDExp_ok', 'rdSExp_ok', 'rdDModel_ok', 'rdSModel_ok', 'rdPD_ok', 'rdPS_ok', 'rdMPol_ok', 'polLoop_ok', 'rdPPol_ok',
+        # every token list: valid object or failure with the destination untouched
+        'failed_read_atomic', 'failed_read_atomic_dexp', 'failed_read_atomic_sexp', 'failed_read_atomic_dmodel',
+        'failed_read_atomic_smodel', 'failed_read_atomic_pd', 'failed_read_atomic_ps', 'failed_read_atomic_mpol',
+        'failed_read_atomic_ppol', 'prefix_behaviour',
+        # tied to the source through Gen/IOPrec
+        'roundtrip_dmodel_src', 'roundtrip_smodel_src', 'roundtrip_dexp_src', 'roundtrip_mpol_src',
+        'roundtrip_sexp_src', 'roundtrip_sexp_src_partial', 'roundtrip_ppol_src',
+        'ratIO_noAt', 'ratIO_toCount_lt',
+        # witnesses of the two defects (model shares them)
+        'rt17_third', 'rt6_third_counterexample', 'ppol_prec6_counterexample', 'count_via_double_counterexample',
+        'count_integer_example',
+    ]],
+    # obligations over the regenerated module AITB.Gen.IOPrec (re-proved against the source on every run)
+    'gen_obligations': [_T + 'IOPrec_utils_ge_17', _T + 'IOPrec_pomdpPolicy', _T + 'IOPrec_commit_last'],
     'harness': 'harness/c17.cpp',
     'level': 'proof',
     'timeout': {'quick': 600, 'thorough': 2400},
     'case_timeout': 120,
+    'rule': 'one case = one random object of one of 10 kinds (MDP::Model, SparseModel, Experience, SparseExperience, Policy, '
+            'POMDP::Policy, POMDP::Model/SparseModel over dense/sparse MDPs), alternating dyadic and "ugly" values (1/3, 0.1, '
+            'DBL_MAX, denormals, random bit patterns); three protocol lines per case: rt (write, load into a different '
+            'destination, compare bits and decisions), trunc (EVERY strict byte prefix), corrupt (every token x 8 corruptions); '
+            'every single load is replayed by the Lean reader on the same bytes. non-trivial = every line; distinct by line',
+    'modelled': ['src/Utils/IO.cpp: every write()/read() overload',
+                 'src/MDP/IO.cpp: operator<< / operator>> of Experience, SparseExperience, Model, SparseModel, PolicyInterface/Policy',
+                 'include/AIToolbox/POMDP/IO.hpp: operator<< / operator>> of POMDP::Model<M>, POMDP::SparseModel<M>',
+                 'src/POMDP/IO.cpp: operator<< / operator>> of POMDP::Policy, checkRemoveAtSign',
+                 'libstdc++ num_get for unsigned long and double, printf %.{p}g, Eigen setFromTriplets, isProbability, setDiscount guard: modelled, tied by the differential run'],
+    'assumptions': ['17 significant digits identify a double (hypothesis RT / Dbl17 of the round-trip theorems; evaluated by the driver on every value of every generated object: rt lines compare the model reload with the original)',
+                    'non-finite values (inf/nan are written as text no reader accepts) are outside the quantifier',
+                    'isProbability sums are exact rationals in the model (doubles in the code): corrupted rows land far from the 1e-6 tolerance'],
+    'trusted_base': ['tools/extract_c17.py (writer precisions, sparse-table value type, commit-last discipline -> AITB.Gen.IOPrec)',
+                     'decide +kernel (kernel evaluation, no compiler trust) for the five witness theorems'],
 }
